@@ -34,6 +34,13 @@ def scratch_dir():
     return _scratch
 
 
+def set_scratch(path):
+    """Use a caller-owned directory for output files (engine E: dumps refer to these files by name)."""
+    global _scratch
+    os.makedirs(path, exist_ok=True)
+    _scratch = path
+
+
 def config_dir():
     return os.path.join(bootstrap.REPO, "jellyfysh", "config_files")
 
